@@ -61,6 +61,17 @@ def laxIsoRel (m : Res LF) (impl : Sx) : Outcome :=
 def pairsNorm (f : LF) : List (Nat × Nat) :=
   (f.hypergraph.quotient.1.zip f.hypergraph.quotient.2).map (fun p => (min p.1 p.2, max p.1 p.2))
 
+/-- the pending unifications as a SET of unordered non-trivial pairs: repetitions and self pairs
+    `(i, i)` cannot influence the generated equivalence -/
+def pairsSet (f : LF) : List (Nat × Nat) :=
+  ((pairsNorm f).filter (fun p => p.1 != p.2)).eraseDups
+
+def samePairsSet (a b : LF) : Bool :=
+  let pa := pairsSet a; let pb := pairsSet b
+  a.hypergraph.quotient.1.length == a.hypergraph.quotient.2.length &&
+  b.hypergraph.quotient.1.length == b.hypergraph.quotient.2.length &&
+  pa.all (fun x => pb.contains x) && pb.all (fun x => pa.contains x)
+
 def samePairsMultiset (a b : LF) : Bool :=
   let pa := pairsNorm a; let pb := pairsNorm b
   a.hypergraph.quotient.1.length == a.hypergraph.quotient.2.length &&
@@ -96,8 +107,10 @@ def laxDenoteRel (B : Backend) (m : Res LF) (impl : Sx) : Outcome :=
   | .ok a, some b =>
     if a.sources == b.sources && a.targets == b.targets && a.hypergraph.nodes == b.hypergraph.nodes &&
        a.hypergraph.edges == b.hypergraph.edges && a.hypergraph.adjacency == b.hypergraph.adjacency &&
-       samePairsMultiset a b then
-      { o with agree := true, rel := "same-pending-unifications(as a multiset of unordered pairs)" }
+       samePairsSet a b && b.wf then
+      -- (`b.wf`: an out-of-range SELF pair of `b` is invisible to the set comparison;
+      --  Props/LaxDenoteSet.lean: `wfb_needed`)
+      { o with agree := true, rel := "same-pending-unifications(as a set of unordered non-trivial pairs)" }
     else if !b.wf then { o with note := "implementation result is not well-formed" }
     else match LOHG.toStrict B a, LOHG.toStrict B b with
       | .ok sa, .ok sb =>
@@ -226,6 +239,10 @@ def runHistoryRen (B : Backend) (pairsAsSet : Bool := false) : LF → L → List
     -- at the OLD numbering: from there on they are stale on both sides and nothing is compared
     if (match op with | .l [.s "h_quotient"] => !(f.sources.isEmpty && f.targets.isEmpty) | _ => false) then
       some (true, "h_quotient on a diagram with interface entries: not compared further")
+    -- a state that records out-of-range node ids (an earlier `unify`/`new_edge`/`set_*` with an id that
+    -- does not exist) is outside what C09 and C11 quantify over: nothing is compared from there on
+    else if !f.wf then
+      some (true, "the state refers to nodes that do not exist: not compared further")
     else
     match editStep B f (unrenOp ren op), implStep with
     | Option.none, _ => Option.none
@@ -262,13 +279,15 @@ def runHistoryRen (B : Backend) (pairsAsSet : Bool := false) : LF → L → List
         let stateOk := okShape && (enc rs == enc fi ||
           (pairsAsSet && rs.sources == fi.sources && rs.targets == fi.targets &&
            rs.hypergraph.nodes == fi.hypergraph.nodes && rs.hypergraph.edges == fi.hypergraph.edges &&
-           rs.hypergraph.adjacency == fi.hypergraph.adjacency && samePairsMultiset rs fi))
+           rs.hypergraph.adjacency == fi.hypergraph.adjacency && samePairsSet rs fi && (fi.wf || !rs.wf)))
         -- outputs: node ids are pushed through the new renumbering, maps are compared by kernel
         let g := fun i => ren'.getD i i
         let outOk : Bool :=
           match op, out, iout with
           | .l [.s "quotient"], .l [.s a, qm], .l [.s b, qi] | .l [.s "h_quotient"], .l [.s a, qm], .l [.s b, qi] =>
-            a == b && (match (dec qm : Option FinFun), (dec qi : Option FinFun) with
+            -- a failed quotient: C09 specifies THAT it fails (and that the diagram is left as it was:
+            -- the state comparison), not the map handed back with the failure
+            a == b && (a == "Err" || match (dec qm : Option FinFun), (dec qi : Option FinFun) with
               | some qm, some qi => qm.target == qi.target && denseOnto qi.table qi.target &&
                   sameKernel qm.table ((List.range qm.table.length).map (fun i => qi.table.getD (ren.getD i i) 0))
               | _, _ => false)
@@ -291,6 +310,10 @@ def runHistoryRen (B : Backend) (pairsAsSet : Bool := false) : LF → L → List
                 | .l [e, a, b], .l [e', a', b'] => e == e' && mapIdsSx g a == a' && mapIdsSx g b == b'
                 | _, _ => false)
              | _ => mapIdsSx g o == io)
+          | .l [.s "is_strict"], o, io =>
+            -- with only self pairs pending, whether the diagram counts as strict is bookkeeping
+            -- (C09's histories only; C11 compares exactly)
+            o == io || (pairsAsSet && !(pairsNorm f).isEmpty && (pairsSet f).isEmpty)
           | _, o, io => o == io
         if stateOk && outOk then runHistoryRen B pairsAsSet f' ren' ops implRest
         else some (false, s!"history diverges at step {ops.length} from the end: stateOk={stateOk} outOk={outOk}")
